@@ -88,6 +88,13 @@ def handle (toks : List String) : Option String :=
       if (gz != "0" && gz != "1") || nb ≥ 2147483648 then "bad-op"
       else s!"ok {toHex (headerBytes nb (gz == "1"))} {encSectionLength nb (gz == "1")}"
     | none => "bad-op"
+  -- bloom.presize <bits> <exact 0|1> <srcValues> <numRows> <maxRows> <repeated 0|1> -> len(c.filter) after configureBloomFilters
+  | ["bloom.presize", bits, ex, sv, nr, mr, rep] => some <|
+    match parseNat? bits, parseNat? sv, parseNat? nr, parseNat? mr with
+    | some bits, some sv, some nr, some mr =>
+      if (ex != "0" && ex != "1") || (rep != "0" && rep != "1") then "bad-op"
+      else s!"ok {presize bits (ex == "1") sv nr mr (rep == "1")}"
+    | _, _, _, _ => "bad-op"
   -- bloom.place <events> -> `<rg>.<col>.<offset>.<length>` per filter event (MIRROR of the filter loop of
   --   writeRowGroup + writeDeferredBloomFilters, offsets only)
   | ["bloom.place", evs] => some <|
